@@ -146,6 +146,10 @@ var c09Stmts = []string{
 	"java.util.concurrent.Callable<Object> cc = new java.util.concurrent.Callable<>() {\n    public Object call() {\n        return new Object() {\n            int deep = new int[1].length;\n        };\n    }\n};",
 	"consume(new Object() {\n    void a() {\n        consume(new Object());\n    }\n    void b() {\n    }\n});",
 	"new java.util.HashMap<String, java.util.List<Integer>>() {{\n    put(\"a\", null);\n}};",
+	// long non-ASCII text in front of a dot: in a literal argument, and as an identifier heading a call chain
+	"consume(\"Пользователь с таким именем не найден. Повторите попытку\");",
+	"Object построительОтчётаПоВсемЗаказамЗаГод = null;\nпостроительОтчётаПоВсемЗаказамЗаГод.toString().trim();",
+	"System.out.println(\"日本語のとても長いメッセージをここに書いておきます。次の文.\" + n);",
 }
 
 var c09Kinds = []string{"class", "abstract class", "final class", "enum", "interface", "@interface", "record", "empty-file", "package-info", "module", "two-types", "interface-then-class", "only-comments"}
